@@ -407,6 +407,17 @@ class Engine:
     def ev_Await(self, e, st):
         return self.ev(e.value, st)      # await f(x) = call under f's contract (frames: see frame pass)
 
+    def ev_Yield(self, e, st):
+        """async generators: `yield v` appends v to the ghost output sequence `yielded`"""
+        out = []
+        for (s, v) in (self.ev(e.value, st) if e.value is not None else [(st, V.None_)]):
+            if isinstance(v, Raise):
+                out.append((s, v)); continue
+            t, s = self.term(v, s)
+            cur = s.ghost.get('yielded', V.List(VL.nil))
+            out.append((s.put_ghost('yielded', V.List(snoc(V.items(cur), t))), V.None_))
+        return out
+
     def ev_Lambda(self, e, st):
         env = dict(st.env)
 
@@ -1921,7 +1932,17 @@ class Engine:
                 out += self.invariant_for(sm, desc, s0, ordinal)
         return out
 
-    st_AsyncFor = None
+    def st_AsyncFor(self, sm, st):
+        """async for x in stream: the stream is consumed as the abstract finite event sequence stream_events(stream)"""
+        ordinal = getattr(sm, '_ordinal', None)
+        out = []
+        for (s0, it) in self.ev(sm.iter, st):
+            if isinstance(it, Raise):
+                out.append((s0, 'raise', it.exc)); continue
+            t, s0 = self.term(it, s0)
+            desc = PyIter([('list', V.List(stream_events(t)))])
+            out += self.invariant_for(sm, desc, s0, ordinal)
+        return out
 
     def unrolled_for(self, sm, elems, st):
         out = []
@@ -2113,6 +2134,7 @@ class LoopContract:
 obj_eq = z3.Function('obj_eq', V, V, BoolS)         # __eq__ of two objects that are not identical
 _obj_bool = z3.Function('obj_bool', V, BoolS)        # __bool__/__len__ based truthiness of an object
 str_concat = z3.Function('str_concat', IntS, IntS, IntS)
+stream_events = z3.Function('stream_events', V, VL)      # the finite sequence of events an async iterable produces
 other_is_bytes = z3.Function('other_is_bytes', IntS, BoolS)   # opaque values that are bytes objects
 
 
